@@ -87,6 +87,15 @@ def run(e: Engine, rep: Report):
     f5(e, rep)
     f6(e, rep)
     f7(e, rep)
+    rep.rule('F8', 'the FIFO of owed replies belongs to one session: no '
+             'class-level mutable object of the client classes is changed '
+             'in place through self without __init__ giving each instance '
+             'its own')
+    common.shared_state_rule(
+        e, rep, 'F8', ['slimta.smtp.client', 'slimta.smtp.lmtpclient'],
+        'two sessions that are open at the same time (pool clients) queue '
+        'their owed replies in one list, and a flush in one reads the '
+        'other\'s replies from the wrong socket')
     rep.floor('F2', 14, 'command methods')
 
 
